@@ -534,6 +534,16 @@ pub fn tx_monitors(h: &Hist, ms: &mut MonState, b: &Obs, line: &str, res: &str, 
                 }
             }
         }
+        // C11: an explicit close refunds exactly the unclaimed remainder to the farm's owner and to nobody else
+        if ok && tx.kind == "closefarm" && !ms.fault_active {
+            if let Some(f) = b.farms.iter().find(|f| f.identifier == tx.args[0]) {
+                let d = h.w.cd(&f.farm_asset.denom);
+                let owner = h.w.n(f.owner.as_str());
+                let remaining = f.farm_asset.amount.u128().saturating_sub(f.claimed_amount.u128());
+                let others: i128 = USERS.iter().filter(|u| **u != owner).map(|u| delta(b, a, u, &d).abs()).sum::<i128>() + delta(b, a, "fc", &d).abs();
+                out.push(format!("mon_farm_close {} {} {} {}", remaining, delta(b, a, &owner, &d), -delta(b, a, "fm", &d), others));
+            }
+        }
         let farm_closed = b.farms.iter().any(|f| match a.farms.iter().find(|g| g.identifier == f.identifier) {
             None => true,
             Some(g) => g.owner != f.owner || g.start_epoch != f.start_epoch || g.farm_asset.denom != f.farm_asset.denom || g.claimed_amount < f.claimed_amount,
